@@ -49,7 +49,9 @@ def _run(chk, finfut, bulk):
     if thorough:
         jobs += [("dv4", cfg("dv4", (1, 2), ("dv",), 4), {}), ("dv3", cfg("dv3", (1, 2, 3), ("dv",), 3), {}), ("csr3", cfg("csr3", (1, 2, 3), ("csr",), 3), {}),
                  ("mix3", cfg("mix3", (1, 2, 3), ("dv", "csr"), 3), {}),
-                 ("layout6", cfg("layout6", (1, 2, 3), ("csr",), 6, ops=("create", "layout", "destroy", "clone")), {}),
+                 # (depth 6 WITH clone does not finish: 6.8 million states at depth 7 with 6.6 million still queued when the JVM gave up)
+                 ("layout6", cfg("layout6", (1, 2, 3), ("csr",), 6, ops=("create", "layout", "destroy")), {}),
+                 ("layout4c", cfg("layout4c", (1, 2, 3), ("csr",), 4, ops=("create", "layout", "destroy", "clone")), {}),
                  ("rangemove5", cfg("rangemove5", (1, 2, 3), ("dv",), 5, ops=("create", "range", "move", "destroy", "clear", "convert")), {}),
                  ("sim", cfg("sim", (1, 2, 3, 4), ("dv", "csr"), 14), dict(simulate=4000, depth=16, tseed=vlib.seed()))]
     else:
